@@ -61,30 +61,56 @@ def run(pid, tier, seed):
         for i, k in enumerate(keys):
             sc = json.loads(k)
             cases.append({"id": i + 1, "script": sc, "finals": design[k]})
-            index[k] = i
-        inp, outp = os.path.join(tmp, "scripts.ndjson"), os.path.join(tmp, "obs.ndjson")
-        with open(inp, "w") as f:
-            for c in cases:
-                f.write(json.dumps(c) + "\n")
-        run_vh(["req-run", "--in", inp, "--out", outp], env=GOENV, timeout=7200)
-        recs = [json.loads(l) for l in open(outp)]
-        # baseline for C09: the same script without the third peer's messages
-        judged = os.path.join(tmp, "judge.ndjson")
-        with open(judged, "w") as f:
-            for rec in recs:
-                sc = rec["case"]["script"]
-                has_c = any(e["ev"] == "C" for e in sc)
-                base_key = json.dumps([e for e in sc if e["ev"] != "C"])
-                bi = index.get(base_key)
-                rec["hasC"] = has_c
-                rec["hasBaseline"] = has_c and bi is not None
-                rec["baseline"] = recs[bi]["obs"] if rec["hasBaseline"] else rec["obs"]
-                f.write(json.dumps(rec) + "\n")
-        ores = tlc_must_pass(run_tlc("Requestor", "RequestorOracle.tla", "ReqOracle.cfg", workers=1, env={"VERIF_CASES": judged}, timeout=7200), "RequestorOracle")
-        verdicts = [json.loads(x) for x in ores.printed()]
-        if len(verdicts) != len(cases):
-            raise Infra("oracle judged %d of %d scripts" % (len(verdicts), len(cases)))
-        states += ores.distinct
+            index[json.dumps(sc, sort_keys=True)] = i
+        def judge(cs, tag):
+            """replay the scripts cs (renumbered 1..n) on the real requestor and let the oracle judge them"""
+            cs = [dict(c, id=i + 1) for i, c in enumerate(cs)]
+            idx = {json.dumps(c["script"], sort_keys=True): i for i, c in enumerate(cs)}
+            inp, outp = os.path.join(tmp, tag + "-scripts.ndjson"), os.path.join(tmp, tag + "-obs.ndjson")
+            with open(inp, "w") as f:
+                for c in cs:
+                    f.write(json.dumps(c) + "\n")
+            run_vh(["req-run", "--in", inp, "--out", outp], env=GOENV, timeout=7200)
+            rs = [json.loads(l) for l in open(outp)]
+            # baseline for C09: the same script without the third peer's messages
+            judged = os.path.join(tmp, tag + "-judge.ndjson")
+            with open(judged, "w") as f:
+                for rec in rs:
+                    sc = rec["case"]["script"]
+                    has_c = any(e["ev"] == "C" for e in sc)
+                    bi = idx.get(json.dumps([e for e in sc if e["ev"] != "C"], sort_keys=True))
+                    rec["hasC"] = has_c
+                    rec["hasBaseline"] = has_c and bi is not None and not rs[bi]["obs"]["desync"]
+                    rec["baseline"] = rs[bi]["obs"] if rec["hasBaseline"] else rec["obs"]
+                    f.write(json.dumps(rec) + "\n")
+            ores = tlc_must_pass(run_tlc("Requestor", "RequestorOracle.tla", "ReqOracle.cfg", workers=1, env={"VERIF_CASES": judged}, timeout=7200), "RequestorOracle")
+            vs = [json.loads(x) for x in ores.printed()]
+            if len(vs) != len(cs):
+                raise Infra("oracle judged %d of %d scripts" % (len(vs), len(cs)))
+            return rs, vs, ores.distinct
+        recs, verdicts, ost = judge(cases, "all")
+        states += ost
+        # a difference from the baseline run must be reproducible: both runs are repeated twice
+        BASE = "outcome-differs-from-run-without-third-peer"
+        suspects = [x["id"] - 1 for x in verdicts if BASE in x["c09"] and not x["desync"]]
+        n_unconfirmed = 0
+        if pid == "C09" and suspects:
+            sub, seen = [], set()
+            for i in suspects:
+                for sc in (cases[i]["script"], [e for e in cases[i]["script"] if e["ev"] != "C"]):
+                    k = json.dumps(sc, sort_keys=True)
+                    if k not in seen:
+                        seen.add(k)
+                        sub.append(cases[index[k]])
+            persistent = set(json.dumps(cases[i]["script"], sort_keys=True) for i in suspects)
+            for rnd in range(2):
+                rs2, vs2, _ = judge(sub, "confirm%d" % rnd)
+                still = set(json.dumps(rs2[x["id"] - 1]["case"]["script"], sort_keys=True) for x in vs2 if BASE in x["c09"] and not x["desync"])
+                persistent &= still
+            for x in verdicts:
+                if BASE in x["c09"] and json.dumps(cases[x["id"] - 1]["script"], sort_keys=True) not in persistent:
+                    x["c09"].remove(BASE)
+                    n_unconfirmed += 1
         n_mismatch = n_desync = 0
         key = PROBLEM_KEY[pid]
         for x in verdicts:
@@ -101,10 +127,18 @@ def run(pid, tier, seed):
         with_c = sum(1 for c in cases if any(e["ev"] == "C" for e in c["script"]))
         cov = {"states": states, "transitions": trans, "traces_validated_against_impl": len(cases),
                "samples": [cases[len(cases) // 2]["script"]], "exhaustive": tier == "quick",
-               "scripts_two_env_events": n2, "scripts_total": len(cases), "scripts_with_third_peer": with_c,
-               "spec_mismatch": n_mismatch, "desync": n_desync,
+               "scripts_two_env_events": n2, "scripts_total": len(cases), "scripts_with_third_peer": with_c, "scripts_with_baseline": sum(1 for rec in recs if rec["hasBaseline"]),
+               "spec_mismatch": n_mismatch, "desync": n_desync, "baseline_differences_not_reproduced": n_unconfirmed,
                "rule": "every behaviour of RequestorScripts.tla with K=2 blocks and <= 2 (thorough: sampled 3) environment events projected on its environment script; "
                        "each replayed on the real requestor with gates (storage read, block hook) holding the executor at the script's points"}
+        if pid == "C23":
+            import resp
+            rcov, rassume = resp.collect("C23", tier, seed, v)
+            cov["responder"] = {k: rcov[k] for k in rcov if k != "samples"}
+            cov["states"] += rcov["states"]
+            cov["transitions"] += rcov["transitions"]
+            cov["traces_validated_against_impl"] += rcov["traces_validated_against_impl"]
+            cov["samples"] += rcov["samples"][:1]
         if not v.new and not v.known_hit and n_desync + n_mismatch > len(cases) // 20:
             raise Infra("too many scripts the real code did not follow (%d desync, %d mismatch of %d): model or harness out of date" % (n_desync, n_mismatch, len(cases)))
         return v.finish(cov, ["TLC", "verifnet raw peers", "stable points reached via gates in user callbacks plus a 6 ms settle for the waiting executor",
